@@ -1,5 +1,5 @@
 (* Proofs about Model/Replicas.v (property C04). *)
-From SV Require Import Base.Prelude Model.Ring Model.Replicas Proofs.Ring_proofs.
+From SV Require Import Base.Prelude Model.Ring Model.Shard Model.Replicas Proofs.Ring_proofs Proofs.Shard_proofs.
 From Coq Require Import Permutation.
 Open Scope Z_scope.
 
@@ -984,6 +984,12 @@ Section Topo.
     - symmetry. eapply skipn_cons_S; eassumption.
   Qed.
 
+  Lemma nth_error_Some_lt' {A} (l : list A) k x : nth_error l k = Some x -> (k < List.length l)%nat.
+  Proof. intros H. apply nth_error_Some. congruence. Qed.
+
+  Lemma filter_length_le {A} (p : A -> bool) l : (List.length (filter p l) <= List.length l)%nat.
+  Proof. induction l as [|x r IH]; cbn [filter List.length]; [lia|]. destruct (p x); cbn [List.length]; lia. Qed.
+
   Section IterOps.
     Variables (g : ring N) (pre : list strategy) (t : Z).
     Let F (m : list (N * nat)) (d : N) := get_nts g pre t d (rf_or0 m d).
@@ -1118,6 +1124,181 @@ Section Topo.
       destruct s as [l|l d|m]; cbn [it_init alpha rs_iter]; try reflexivity.
       destruct (ring_dcs g) as [|d rest]; reflexivity.
     Qed.
+
+    (* ---- size_hint: lower <= what is still to come <= upper, in every reachable state ---- *)
+    Local Notation it_size_hint := (it_size_hint dcf g).
+    Definition wf (st : istate) : Prop :=
+      match st with
+      | IPlain l idx => (idx <= List.length l)%nat
+      | IFiltered l _ idx => (idx <= List.length l)%nat
+      | IChained m cur ridx rest =>
+          (ridx <= List.length cur)%nat /\ exists prev d, ring_dcs g = prev ++ d :: rest /\ cur = F m d
+      end.
+
+    Lemma init_wf s : wf (it_init dcf rackf g pre t s).
+    Proof.
+      destruct s as [l|l d|m]; cbn [it_init wf]; try lia.
+      destruct (ring_dcs g) as [|d rest] eqn:E; cbn [wf List.length]; [lia|].
+      split; [lia|]. exists [], d. split; [exact E|reflexivity].
+    Qed.
+
+    Lemma chain_next_wf m : forall rest cur ridx,
+      wf (IChained m cur ridx rest) -> wf (snd (chain_next m cur ridx rest)).
+    Proof.
+      induction rest as [|d r IH]; intros cur ridx [Hr (prev & d0 & Hd & Hc)]; cbn [Replicas.chain_next].
+      - destruct (nth_error cur ridx) as [x|] eqn:E; cbn [snd wf].
+        + split; [apply nth_error_Some_lt' in E; lia|eauto].
+        + split; [assumption|eauto].
+      - destruct (nth_error cur ridx) as [x|] eqn:E; cbn [snd].
+        + cbn [wf]. split; [apply nth_error_Some_lt' in E; lia|eauto].
+        + apply IH. cbn [wf]. split; [lia|]. exists (prev ++ [d0]), d. split; [|reflexivity].
+          rewrite Hd, <- app_assoc. reflexivity.
+    Qed.
+
+    Lemma filt_next_le d : forall suffix idx, (snd (filt_next dcf d suffix idx) <= idx + List.length suffix)%nat.
+    Proof.
+      induction suffix as [|x r IH]; intros idx; cbn [filt_next List.length snd]; [lia|].
+      destruct (in_dc d x); cbn [snd]; [lia|]. specialize (IH (S idx)). lia.
+    Qed.
+
+    Lemma next_wf st : wf st -> wf (snd (it_next st)).
+    Proof.
+      destruct st as [l idx|l d idx|m cur ridx rest]; cbn [Replicas.it_next]; intros H.
+      - destruct (nth_error l idx) eqn:E; cbn [snd wf] in *; [apply nth_error_Some_lt' in E; lia|assumption].
+      - pose proof (filt_next_le d (skipn idx l) idx) as Hle. rewrite skipn_length in Hle. cbn [wf] in H.
+        destruct (filt_next dcf d (skipn idx l) idx) as [o idx']. cbn [snd wf] in *. lia.
+      - now apply chain_next_wf.
+    Qed.
+
+    Lemma next_times_wf n : forall st, wf st -> wf (snd (next_times n st)).
+    Proof.
+      induction n as [|n IH]; intros st H; cbn [Replicas.next_times]; [now apply next_wf|].
+      pose proof (next_wf st H) as H1. destruct (it_next st) as [o st1]. cbn [snd] in H1.
+      destruct o; cbn [snd]; [now apply IH|assumption].
+    Qed.
+
+    Lemma chain_nth_wf m : forall rest cur ridx remaining,
+      wf (IChained m cur ridx rest) -> wf (snd (chain_nth m cur ridx rest remaining)).
+    Proof.
+      induction rest as [|d r IH]; intros cur ridx remaining [Hr (prev & d0 & Hd & Hc)]; cbn [Replicas.chain_nth];
+        destruct (remaining <? List.length cur - ridx)%nat eqn:E.
+      - apply Nat.ltb_lt in E. apply chain_next_wf. cbn [wf]. split; [lia|eauto].
+      - cbn [snd wf]. split; [lia|eauto].
+      - apply Nat.ltb_lt in E. apply chain_next_wf. cbn [wf]. split; [lia|eauto].
+      - apply IH. cbn [wf]. split; [lia|]. exists (prev ++ [d0]), d. split; [|reflexivity].
+        rewrite Hd, <- app_assoc. reflexivity.
+    Qed.
+
+    Lemma nth_wf n st : wf st -> wf (snd (it_nth n st)).
+    Proof.
+      destruct st as [l idx|l d idx|m cur ridx rest]; cbn [Replicas.it_nth]; intros H.
+      - destruct (List.length l <=? idx + n)%nat eqn:E; [cbn [snd wf]; lia|].
+        apply Nat.leb_gt in E. apply next_wf. cbn [wf]. lia.
+      - now apply next_times_wf.
+      - now apply chain_nth_wf.
+    Qed.
+
+    Lemma run_wf ops : forall st, wf st -> Forall (fun h => True) (it_run_hints dcf rackf g pre t ops st).
+    Proof. intros. apply Forall_forall. trivial. Qed.
+
+    Lemma F_length_le m d : (List.length (F m d) <= rf_or0 m d)%nat.
+    Proof. unfold F. rewrite precomputed_nts. apply nts_replicas_length_le. Qed.
+
+    Definition sum_or0 (m : list (N * nat)) (D : list N) : nat := fold_right (fun d acc => (rf_or0 m d + acc)%nat) 0%nat D.
+
+    Lemma sum_or0_app m a b : sum_or0 m (a ++ b) = (sum_or0 m a + sum_or0 m b)%nat.
+    Proof. induction a as [|x r IH]; cbn [app sum_or0 fold_right]; [reflexivity|]. fold (sum_or0 m (r ++ b)) (sum_or0 m r). lia. Qed.
+
+    Lemma sum_or0_cons_notin k rf m D : ~ In k D -> sum_or0 ((k, rf) :: m) D = sum_or0 m D.
+    Proof.
+      induction D as [|d r IH]; intros H; [reflexivity|]. cbn [sum_or0 fold_right].
+      fold (sum_or0 ((k, rf) :: m) r) (sum_or0 m r). rewrite IH by (intros C; apply H; now right).
+      unfold rf_or0 at 1. cbn [rf_lookup]. destruct (N.eqb k d) eqn:E; [|reflexivity].
+      apply N.eqb_eq in E. subst. exfalso. apply H. now left.
+    Qed.
+
+    Lemma sum_or0_le m : forall D, NoDup D -> (sum_or0 m D <= sum_rf m)%nat.
+    Proof.
+      induction m as [|[k rf] m IH]; intros D HD.
+      - induction D as [|d r IHr]; [cbn; lia|]. inversion HD; subst. cbn [sum_or0 fold_right]. fold (sum_or0 [] r).
+        specialize (IHr H2). cbn in *. lia.
+      - cbn [sum_rf fold_right snd]. fold (sum_rf m).
+        assert (G : (sum_or0 ((k, rf) :: m) D <= rf + sum_or0 m D)%nat).
+        { induction HD as [|d r Hd Hr IHr]; [cbn; lia|]. cbn [sum_or0 fold_right].
+          fold (sum_or0 ((k, rf) :: m) r) (sum_or0 m r).
+          unfold rf_or0 at 1. cbn [rf_lookup]. destruct (N.eqb k d) eqn:E.
+          - apply N.eqb_eq in E. subst. rewrite sum_or0_cons_notin by assumption. lia.
+          - fold (rf_or0 m d). lia. }
+        specialize (IH D HD). lia.
+    Qed.
+
+    Lemma flat_map_F_length m D : (List.length (flat_map (F m) D) <= sum_or0 m D)%nat.
+    Proof.
+      induction D as [|d r IH]; [cbn; lia|]. cbn [flat_map sum_or0 fold_right]. fold (sum_or0 m r).
+      rewrite app_length. pose proof (F_length_le m d). lia.
+    Qed.
+
+    Theorem size_hint_bounds st : wf st ->
+      (fst (it_size_hint st) <= List.length (alpha st) <= snd (it_size_hint st))%nat.
+    Proof.
+      destruct st as [l idx|l d idx|m cur ridx rest]; cbn [Replicas.it_size_hint alpha fst snd wf].
+      - intros H. rewrite skipn_length. lia.
+      - intros H. pose proof (filter_length_le (in_dc d) (skipn idx l)) as Hf. rewrite skipn_length in Hf. lia.
+      - intros [Hr (prev & d & Hd & Hc)]. rewrite app_length, skipn_length.
+        assert (Ep : firstn (List.length (ring_dcs g) - S (List.length rest)) (ring_dcs g) = prev).
+        { rewrite Hd, app_length. cbn [List.length].
+          replace (List.length prev + S (List.length rest) - S (List.length rest))%nat with (List.length prev + 0)%nat by lia.
+          rewrite firstn_app_2. cbn [firstn]. apply app_nil_r. }
+        rewrite Ep. fold (sum_or0 m prev).
+        pose proof (sum_or0_le m (ring_dcs g) (uniq_NoDup _)) as Hs. rewrite Hd, sum_or0_app in Hs.
+        cbn [sum_or0 fold_right] in Hs. fold (sum_or0 m rest) in Hs.
+        pose proof (flat_map_F_length m rest). pose proof (F_length_le m d). subst cur. lia.
+    Qed.
+
+    (* no usize underflow in `values().sum() - yielded` *)
+    Theorem size_hint_no_underflow m cur ridx rest : wf (IChained m cur ridx rest) ->
+      (sum_or0 m (firstn (List.length (ring_dcs g) - S (List.length rest)) (ring_dcs g)) + ridx <= sum_rf m)%nat.
+    Proof.
+      intros [Hr (prev & d & Hd & Hc)].
+      assert (Ep : firstn (List.length (ring_dcs g) - S (List.length rest)) (ring_dcs g) = prev).
+      { rewrite Hd, app_length. cbn [List.length].
+        replace (List.length prev + S (List.length rest) - S (List.length rest))%nat with (List.length prev + 0)%nat by lia.
+        rewrite firstn_app_2. cbn [firstn]. apply app_nil_r. }
+      rewrite Ep. pose proof (sum_or0_le m (ring_dcs g) (uniq_NoDup _)) as Hs. rewrite Hd, sum_or0_app in Hs.
+      cbn [sum_or0 fold_right] in Hs. pose proof (F_length_le m d). subst cur. lia.
+    Qed.
+
+    (* every state reached by next()/nth(n) from a fresh iterator is well-formed *)
+    Fixpoint it_reach (ops : list iop) (st : istate) : istate :=
+      match ops with
+      | [] => st
+      | INext :: r => it_reach r (snd (it_next st))
+      | INth k :: r => it_reach r (snd (it_nth k st))
+      end.
+    Lemma reach_wf ops : forall st, wf st -> wf (it_reach ops st).
+    Proof.
+      induction ops as [|op r IH]; intros st H; [assumption|]. cbn [it_reach]. destruct op as [|k]; apply IH.
+      - now apply next_wf.
+      - now apply nth_wf.
+    Qed.
+
+    Theorem size_hint_reachable s ops :
+      let st := it_reach ops (it_init dcf rackf g pre t s) in
+      (fst (it_size_hint st) <= List.length (alpha st) <= snd (it_size_hint st))%nat.
+    Proof. cbv zeta. apply size_hint_bounds, reach_wf, init_wf. Qed.
+
+    Theorem ordered_hint_bounds s dc : sorted_weak g -> nts_keys_ok s ->
+      let r := replicas_for dcf rackf g pre t s dc in
+      (fst (rs_ordered_hint dcf rackf g pre t r) <= List.length (fst (rs_ordered dcf rackf g pre t r))
+       <= snd (rs_ordered_hint dcf rackf g pre t r))%nat.
+    Proof.
+      intros Hs Hk. cbv zeta. pose proof (ordered_perm g pre t Hs s dc Hk) as P. apply Permutation_length in P.
+      rewrite P. destruct (replicas_for dcf rackf g pre t s dc) as [l|l d|m]; cbn [rs_ordered_hint it_init Replicas.it_size_hint rs_iter fst snd].
+      - lia.
+      - pose proof (filter_length_le (in_dc d) l). lia.
+      - split; [lia|]. fold (F m). pose proof (flat_map_F_length m (ring_dcs g)).
+        pose proof (sum_or0_le m (ring_dcs g) (uniq_NoDup _)). lia.
+    Qed.
   End IterOps.
 
   (* ============================================================= model = specification *)
@@ -1210,3 +1391,17 @@ Qed.
 (* ---- a ring on which two nodes own the same token (the witness of the repaired finding F18) --- *)
 Definition dup_dcf (n : N) : option N := match n with 2%N => Some 2%N | _ => Some 1%N end.
 Definition dup_ring : ring N := [(10, 1%N); (10, 2%N); (20, 3%N)].
+
+(* ---- shards of the yielded replicas --------------------------------------------------------- *)
+Lemma computed_shard_spec sharderf t n : computed_shard sharderf t n = spec_node_shard sharderf t n.
+Proof. unfold computed_shard, spec_node_shard. destruct (sharderf n) as [[nr msb]|]; [apply shard_of_spec|reflexivity]. Qed.
+
+Lemma computed_shard_lt sharderf t n nr msb : sharderf n = Some (nr, msb) -> (0 < nr)%N ->
+  (computed_shard sharderf t n < nr)%N.
+Proof. intros E H. unfold computed_shard. rewrite E. now apply shard_of_lt. Qed.
+
+Lemma with_shards_spec sharderf t l n sh : In (n, sh) (with_shards sharderf t l) ->
+  In n l /\ sh = spec_node_shard sharderf t n.
+Proof.
+  unfold with_shards. rewrite in_map_iff. intros (m & [= <- <-] & Hm). split; [assumption|apply computed_shard_spec].
+Qed.
